@@ -120,6 +120,19 @@ Definition d_read_file (root : dnode) (cwd p : string) : res string :=
 
 (* ---- vocabulary of the theorems ---- *)
 
+(* all real directories of the tree (reached without following a link), as name lists from "/" *)
+Fixpoint d_dirs (n : dnode) : list (list string) :=
+  match n with
+  | DDir es =>
+      [] :: (fix go (l : list (string * dnode)) : list (list string) :=
+               match l with
+               | [] => []
+               | (k, x) :: t => (map (cons k) (d_dirs x) ++ go t)%list
+               end) es
+  | _ => []
+  end.
+
+
 Fixpoint wf_dnode (n : dnode) : bool :=
   match n with
   | DFile _ => true
